@@ -21,7 +21,8 @@ def main():
     modname = "mc.checks.%s" % prop.lower()
     spec = importlib.util.find_spec(modname)
     if spec is None:
-        sys.exit("no check for %s" % prop)
+        sys.stderr.write("no check for %s\n" % prop)
+        sys.exit(2)
     asan = prop in ("C20",) and os.environ.get("VERIF_ASAN_CHILD") == "1"
     src = build.ensure(asan=asan)
     sys.path.insert(0, src)
@@ -43,6 +44,13 @@ def main():
             try:
                 mod.run(ctx)
                 forms.attach(ctx)
+            except Exception:   # noqa  a crash of the harness is never a
+                import traceback            # verdict: exit 2, no VIOLATION
+                traceback.print_exc()
+                print("HARNESS ERROR %s: the check itself failed (see the "
+                      "traceback); no verdict" % prop)
+                ctx.close()
+                sys.exit(2)
             finally:
                 ctx.close()
             rc = ctx.finish()
